@@ -244,7 +244,7 @@ def route_internal(tracks, wd):
 
 
 def plan(tier, seed):
-    n = 320 if tier == "quick" else 6000
+    n = 480 if tier == "quick" else 6000
     return [{"kind": "cases", "n": n // 16, "seed": common.seed_for(PROP, tier, seed, i)}
             for i in range(16)]
 
